@@ -299,6 +299,13 @@ class ClassVal:
 
 
 @dataclass(eq=False)
+class CachedVal:
+    """functools.lru_cache / cache applied to a function: one result per distinct key for the whole run."""
+    func: object
+    store: dict
+
+
+@dataclass(eq=False)
 class SuperVal:
     """super() inside a method of `owner`, for the instance (or class) the method was called on."""
     owner: "ClassVal"
@@ -482,6 +489,9 @@ class Interp:
             return {"None": None, "True": True, "False": False}[name]
         if name == "super":
             return Builtin("super")
+        eg = getattr(self, "extra_globals", None)
+        if eg is not None and name in eg:
+            return eg[name]          # put into the module namespace at run time (globals()[...] = / setdefault)
         raise Unsupported(f"name {name!r} cannot be resolved in {mod.rel}")
 
     def class_val(self, mod: Module, node: ast.ClassDef) -> ClassVal:
@@ -1086,6 +1096,10 @@ class Interp:
     def getattr(self, o, attr, site):
         if isinstance(o, SuperVal):
             return self.super_attr(o, attr, site)
+        if isinstance(o, Obj) and attr == "__dict__":
+            d_ = ADict({})
+            d_.items = o.attrs
+            return d_
         if isinstance(o, Obj):
             if attr in o.attrs:
                 return o.attrs[attr]
@@ -2062,6 +2076,19 @@ class Interp:
         raise Unsupported(f"super().{attr} at {site}")
 
     def apply(self, f, args, kwargs, site, node=None):
+        if isinstance(f, CachedVal):
+            # functools caches: the arguments are the key (compared with == and hash); a result that was computed is handed out
+            # again, an exception is not remembered
+            for a_ in list(args) + list(kwargs.values()):
+                self.check_hashable(a_, site)
+            key = tuple(_key(a_) for a_ in args) + tuple((k_, _key(v_)) for k_, v_ in sorted(kwargs.items()))
+            if key in f.store:
+                return f.store[key]
+            r_ = self.apply(f.func, args, kwargs, site, node)
+            f.store[key] = r_
+            return r_
+        if isinstance(f, Builtin) and f.name == "functools.cache-decorator" and len(args) == 1:
+            return CachedVal(args[0], {})
         if isinstance(f, FuncVal):
             return self.call(f, args, kwargs, site)
         if isinstance(f, PartialVal):
@@ -2661,8 +2688,27 @@ class Interp:
                 return ASet([])
             items = [x.value if isinstance(x, _Tagged) else x for x in self.iterate(args[0], site)]
             return ASet(self.dedupe_opaque(items, site))
+        if name == "vars" and len(args) == 1 and isinstance(args[0], Obj):
+            d_ = ADict({})
+            d_.items = args[0].attrs          # the instance dictionary itself: changes through it are changes of the object
+            return d_
         if name == "dict" and not args:
             return ADict(dict(kwargs))
+        if name == "dict" and len(args) == 1 and isinstance(args[0], (AList, _MapIter)) or (
+                name == "dict" and len(args) == 1 and isinstance(args[0], ADict)):
+            # dict(pairs) / dict(mapping): later pairs overwrite the value of an equal key and keep its position
+            d = ADict({})
+            if isinstance(args[0], ADict):
+                d.items.update(args[0].items)
+            else:
+                for pr in self.iterate(args[0], site):
+                    pr = pr.value if isinstance(pr, _Tagged) else pr
+                    if not (isinstance(pr, AList) and len(pr.items) == 2):
+                        raise Unsupported(f"dict() of a sequence whose members are not pairs at {site}")
+                    d.items[self.dict_key(d, pr.items[0], site)] = pr.items[1]
+            for k_, v_ in kwargs.items():
+                d.items[k_] = v_
+            return d
         if name == "isinstance":
             t = args[1]
             ts = t.items if isinstance(t, AList) else [t]
@@ -2682,6 +2728,11 @@ class Interp:
                     return Builtin(cn)
             if v is None:
                 return Builtin("NoneType")
+            if isinstance(v, EnumVal):
+                for m_ in self.src.modules.values():
+                    c_ = m_.classes().get(v.cls)
+                    if c_ is not None:
+                        return self.class_val(m_, c_)
             raise Unsupported(f"type() of {type(v).__name__} at {site}")
         if name == "map":
             f = args[0]
@@ -3157,6 +3208,11 @@ class Interp:
             return None            # a process setting (C17 judges the call itself)
         if q in ("sys.setrecursionlimit", "sys.setswitchinterval", "gc.collect", "gc.disable", "gc.enable"):
             return None            # process settings do not change what text is generated (C17 judges the call itself)
+        if q in ("functools.lru_cache", "lru_cache", "functools.cache", "cache"):
+            # lru_cache(maxsize=...) -> decorator; cache(f) / lru_cache(f) -> the memoised function
+            if args and isinstance(args[0], (FuncVal, PartialVal, BoundMethod)):
+                return CachedVal(args[0], {})
+            return Builtin("functools.cache-decorator")
         if q in ("functools.partial", "partial") and args:
             return PartialVal(args[0], list(args[1:]), dict(kwargs))
         if q in ("functools.wraps", "wraps", "functools.update_wrapper"):
